@@ -9,8 +9,9 @@ Property theorems only (helper lemmas are in `Proofs/PathCodec.lean`, `Proofs/Do
 * `Kernels/PathCodec.lean` – `abs_to_rel` / `rel_to_abs` and the tuple forms of
   `modelx/core/util.py`, by which direct bases, object-valued references and the addresses of
   ItemSpace inputs are stored relative to the space that holds them.
-* `Kernels/DocQuote.lean` – the un-escaped `'"""' + doc + '"""'` of the writer against
-  Python's reading of a triple-quoted literal.
+* `Kernels/DocQuote.lean` – `quote_docstring` of `modelx/core/formula.py` (the writer of every
+  documentation string since commit 2b72506) against Python's reading of a triple-quoted
+  literal: tokenizer, escape decoder, universal newlines, the line re-join of a def's source.
 
 The whole-model round trip (space tree, formulas, flags, references, inputs, directory = zip,
 write inert) is not a theorem; it is checked on the implementation (harness `c04.py`).
@@ -81,45 +82,98 @@ theorem rel_abs_roundtrip_full_fails : ¬ ∀ t ns : List Char, relToAbs (absToR
 
 /-! ## Documentation strings -/
 
-/-- **The docstring codec is faithful exactly on `SafeDoc`**: what the reader gets from
-`'"""' + doc + '"""'` is `doc` if and only if `doc` has no carriage return, no `"""`, does not
-end in `"`, and every backslash stands in front of a character that means nothing after a
-backslash.  Otherwise the written file either cannot be parsed as meant or yields another
-text. -/
-theorem doc_quote_roundtrip_partial (doc : List Ch) :
-    readLit (writeDoc doc) = some doc ↔ SafeDoc doc := by
-  rw [readLit_eq_some, lexLit_writeDoc]
-  constructor
-  · intro h
-    have hcr : Ch.cr ∉ doc := scan_noCr _ (universalNl_noCr _) _ _ h
-    have hcr' : Ch.cr ∉ doc ++ qqq := by simp [hcr]
-    rw [universalNl_id _ hcr'] at h
-    obtain ⟨a, b, c⟩ := scan_safe doc hcr h
-    exact ⟨hcr, a, b, c⟩
-  · rintro ⟨hcr, a, b, c⟩
-    have hcr' : Ch.cr ∉ doc ++ qqq := by simp [hcr]
-    rw [universalNl_id _ hcr']
-    exact scan_of_safe doc ⟨a, b, c⟩
+/-- **The docstring codec is faithful for EVERY string**: whatever the documentation string
+is (quotes anywhere, backslashes, NUL, carriage returns, any line boundary, any other
+character), the text `quote_docstring` produces, read as a file in text mode and then as a
+Python literal, is exactly one triple-quoted string token whose value is the string. -/
+theorem doc_quote_roundtrip (doc : List Char) : readLiteral (quoteDocstring doc) = some doc := by
+  rw [readLiteral_eq_some]
+  refine ⟨quoteBody 0 doc, ?_, dec_quoteBody doc 0⟩
+  have h := lexLit_quoteDocstring doc []
+  simpa [universalNl, nlAux] using h
 
-/-- the unrestricted statement is false of the code that exists; four concrete documentation
-strings: `a"` and `a"""b` and `a\` (file no longer parses as meant), `a\nb` written with a
-backslash (comes back with a line feed) -/
-theorem doc_quote_full_fails : ¬ ∀ doc : List Ch, readLit (writeDoc doc) = some doc := by
-  intro h
-  have := h [.plain 'a', .q]
-  revert this
-  decide
+/-- two different documentation strings are never written as the same text -/
+theorem quote_docstring_injective (d d' : List Char) (h : quoteDocstring d = quoteDocstring d') :
+    d = d' := by
+  have a := doc_quote_roundtrip d
+  rw [h, doc_quote_roundtrip d'] at a
+  exact (Option.some.inj a).symm
 
-theorem doc_ending_in_quote_unreadable : readLit (writeDoc [.plain 'a', .q]) = none := by decide
-theorem doc_with_triple_quote_unreadable :
-    readLit (writeDoc [.plain 'a', .q, .q, .q, .plain 'b']) = none := by decide
-theorem doc_ending_in_backslash_unreadable : readLit (writeDoc [.plain 'a', .bs]) = none := by decide
-theorem doc_with_escape_changed :
-    readLit (writeDoc [.plain 'a', .bs, .en, .plain 'b']) = some [.plain 'a', .nl, .plain 'b'] := by decide
-theorem doc_with_escaped_quote_changed :
-    readLit (writeDoc [.plain 'a', .bs, .q]) = some [.plain 'a', .q] := by decide
-theorem doc_with_carriage_return_changed :
-    readLit (writeDoc [.plain 'a', .cr, .nl, .plain 'b']) = some [.plain 'a', .nl, .plain 'b'] := by decide
+/-- **The written literal is lexically one token, whatever follows it**: the tokenizer's
+closing `"""` are the three quotes the writer put at the end (no quote of the documentation
+string completes a run of three, and the closing quotes are not swallowed by a backslash or
+joined by a trailing quote of the string), the token's body is what the writer put between
+the quotes, and the text after the statement is left as it is. -/
+theorem doc_quote_one_token (doc tail : List Char) :
+    lexLit (quoteDocstring doc ++ tail) = some (quoteBody 0 doc, universalNl tail) :=
+  lexLit_quoteDocstring doc tail
+
+/-- …and it does not end earlier: on every proper prefix of the written body-and-closing-quotes
+the tokenizer finds no end of the literal -/
+theorem doc_quote_no_early_end (doc p s : List Char) (h : quoteBody 0 doc ++ qqq = p ++ s) (hs : s ≠ []) :
+    scanTok 0 p = none := by
+  cases hp : scanTok 0 p with
+  | none => rfl
+  | some tr =>
+    obtain ⟨t, r⟩ := tr
+    have h1 := scanTok_append 0 p t r s hp
+    have h2 := scanTok_quoteBody doc 0 [] (by omega) (fun _ => rfl)
+    rw [List.append_nil, h, h1] at h2
+    simp only [Option.some.injEq, Prod.mk.injEq, List.append_eq_nil_iff] at h2
+    exact absurd h2.2.2 hs
+
+/-- **The written literal holds no character a source text does not keep**: no NUL, no
+carriage return and none of the other characters at which `str.splitlines` splits a text –
+only line feeds separate its lines. -/
+theorem doc_quote_source_safe (doc : List Char) (x : Char) (h : x ∈ quoteDocstring doc) :
+    x ∉ sourceUnsafe :=
+  quoteDocstring_sourceSafe doc x h
+
+/-- hence reading the file in text mode (universal newlines) does not alter it … -/
+theorem doc_quote_newline_stable (doc : List Char) :
+    universalNl (quoteDocstring doc) = quoteDocstring doc :=
+  universalNl_noCr _ (quoteDocstring_noCr doc)
+
+/-- … and neither does the line re-join `"\n".join(source.splitlines())` that the `Formula`
+constructor and `FunctionDefParser` apply to the source of a def: a docstring written by
+`quote_docstring` (`set_doc`) inside a def whose text before it has no such character
+either stays where it is, character for character. -/
+theorem doc_quote_survives_line_rejoin (doc pre post : List Char)
+    (hpre : ∀ x ∈ pre, x ∉ sourceUnsafe) (hpost : post ≠ []) :
+    splitJoin false (pre ++ quoteDocstring doc ++ post)
+      = pre ++ quoteDocstring doc ++ splitJoin false post := by
+  rw [List.append_assoc, splitJoin_append_safe pre _ hpre (by simp [quoteDocstring, qqq]),
+    splitJoin_append_safe _ _ (quoteDocstring_sourceSafe doc) hpost, List.append_assoc]
+
+/-! ### Regression: the documentation strings that the un-escaped writer lost
+
+(`'"""' + doc + '"""'` before 2b72506: the first three made the written model unreadable,
+the last three came back changed; findings C04-doc-quote, C04-doc-backslash, C04-doc-cr) -/
+
+theorem doc_ending_in_quote_readable :
+    String.ofList (quoteDocstring "a\"".toList) = "\"\"\"a\\\"\"\"\"" ∧
+    readLiteral (quoteDocstring "a\"".toList) = some "a\"".toList := by decide +kernel
+theorem doc_with_triple_quote_readable :
+    String.ofList (quoteDocstring "a\"\"\"b".toList) = "\"\"\"a\"\"\\\"b\"\"\"" ∧
+    readLiteral (quoteDocstring "a\"\"\"b".toList) = some "a\"\"\"b".toList := by decide +kernel
+theorem doc_ending_in_backslash_readable :
+    String.ofList (quoteDocstring "a\\".toList) = "\"\"\"a\\\\\"\"\"" ∧
+    readLiteral (quoteDocstring "a\\".toList) = some "a\\".toList := by decide +kernel
+theorem doc_with_escape_unchanged :
+    readLiteral (quoteDocstring "a\\nb".toList) = some "a\\nb".toList := by decide +kernel
+theorem doc_with_escaped_quote_unchanged :
+    readLiteral (quoteDocstring "a\\\"".toList) = some "a\\\"".toList := by decide +kernel
+theorem doc_with_carriage_return_unchanged :
+    String.ofList (quoteDocstring "a\r\nb".toList) = "\"\"\"a\\r\nb\"\"\"" ∧
+    readLiteral (quoteDocstring "a\r\nb".toList) = some "a\r\nb".toList := by decide +kernel
+
+/-- what the reader does with the text the OLD writer produced for these strings (the reader
+did not change): unreadable, or another value -/
+theorem unescaped_text_was_unreadable_or_changed :
+    readLiteral "\"\"\"a\"\"\"\"".toList = none ∧ readLiteral "\"\"\"a\"\"\"b\"\"\"".toList = none ∧
+    readLiteral "\"\"\"a\\\"\"\"".toList = none ∧
+    readLiteral "\"\"\"a\\nb\"\"\"".toList = some "a\nb".toList ∧
+    readLiteral "\"\"\"a\r\nb\"\"\"".toList = some "a\nb".toList := by decide +kernel
 
 /-! ## Dispatch tables (regenerated from `serializer_6.py` on every run) -/
 
@@ -172,10 +226,44 @@ example : relToAbsTuple [.str ".....".toList, .str "x".toList]
       [.str "a".toList, .str "b".toList, .str "c".toList]
     = .ok [.str "a".toList, .str "b".toList, .str "x".toList] := by decide
 
-example : SafeDoc [.q, .plain 'a', .q, .q, .nl, .bs, .plain 'd', .en] := by decide
-example : readLit (writeDoc [.q, .plain 'a', .q, .q, .nl, .bs, .plain 'd', .en])
-    = some [.q, .plain 'a', .q, .q, .nl, .bs, .plain 'd', .en] :=
-  (doc_quote_roundtrip_partial _).mpr (by decide)
+/-- a documentation string with every kind of character the writer treats specially: quotes
+at the start, a run of seven, a backslash before a quote, every key of the escape table, a
+non-ASCII character, quotes at the end -/
+def nastyDoc : List Char :=
+  "\"\"x\"\"\"\"\"\"\"y\\\"z\\".toList ++
+  [Char.ofNat 0, '\r', '\n', Char.ofNat 0x0b, Char.ofNat 0x0c, Char.ofNat 0x1c, Char.ofNat 0x1d,
+   Char.ofNat 0x1e, Char.ofNat 0x85, Char.ofNat 0x2028, Char.ofNat 0x2029, Char.ofNat 0xe9,
+   Char.ofNat 0x1F600] ++ "\\n\"\"".toList
+
+example : String.ofList (quoteDocstring nastyDoc) =
+    "\"\"\"\"\"x\"\"\\\"\"\"\\\"\"y\\\\\"z\\\\\\x00\\r\n\\x0b\\x0c\\x1c\\x1d\\x1e\\x85\\u2028\\u2029é😀\\\\n\"\\\"\"\"\"" := by
+  decide +kernel
+example : readLiteral (quoteDocstring nastyDoc) = some nastyDoc := doc_quote_roundtrip _
+example : readLiteral (quoteDocstring nastyDoc) = some nastyDoc := by decide +kernel
+example : quoteDocstring "a".toList ≠ quoteDocstring "b".toList :=
+  fun h => absurd (quote_docstring_injective _ _ h) (by decide +kernel)
+example : lexLit (quoteDocstring nastyDoc ++ "\nx = 1\r\n".toList)
+    = some (quoteBody 0 nastyDoc, "\nx = 1\n".toList) := doc_quote_one_token _ _
+/-- the hypotheses of `doc_quote_no_early_end` are satisfiable, and a text that is not the
+writer's does end early -/
+example : scanTok 0 "a\\\"\"\"".toList = none :=
+  doc_quote_no_early_end "a\"".toList "a\\\"\"\"".toList "\"".toList (by decide +kernel) (by decide +kernel)
+example : scanTok 0 "a\"\"\"\"".toList = some ("a\"\"\"".toList, "\"".toList) := by decide +kernel
+example : Char.ofNat 0x2028 ∈ nastyDoc ∧ Char.ofNat 0x2028 ∈ sourceUnsafe ∧
+    Char.ofNat 0x2028 ∉ quoteDocstring nastyDoc := by decide +kernel
+example : universalNl (quoteDocstring nastyDoc) = quoteDocstring nastyDoc := doc_quote_newline_stable _
+/-- text-mode reading does alter a text that holds a carriage return as it is -/
+example : universalNl "a\r\nb\rc".toList = "a\nb\nc".toList := by decide +kernel
+example : splitJoin false ("def f(x):\n    ".toList ++ quoteDocstring nastyDoc ++ "\n    return x\n".toList)
+    = "def f(x):\n    ".toList ++ quoteDocstring nastyDoc ++ "\n    return x".toList := by
+  rw [doc_quote_survives_line_rejoin _ _ _ (by decide +kernel) (by decide +kernel)]; decide +kernel
+/-- the line re-join does alter a text that holds such a character as it is -/
+example : splitJoin false "a\x0cb\r\nc\n".toList = "a\nb\nc".toList := by decide +kernel
+/-- the reader model beyond the writer's output: octal, `\x`, `\u`, `\U`, unknown escapes,
+line continuation; a truncated `\x` is an error -/
+example : readLiteral "\"\"\"\\101\\x41\\u0041\\U00000041\\d\\\n\\0\"\"\"".toList
+    = some ("AAAA\\d".toList ++ [Char.ofNat 0]) := by decide +kernel
+example : readLiteral "\"\"\"\\x4\"\"\"".toList = none := by decide +kernel
 
 example : selectDecoder "Pickle" = some ("PickleDecoder", "Pickle") := by decide
 example : selectDecoder "" = some ("LiteralDecoder", "") := by decide
